@@ -100,11 +100,11 @@ theorem Mon.fold_flatten {M} (m : Mon M) (ls : List (List M)) : m.fold (ls.map m
     simp [Mon.fold]
 
 /-- a monoid homomorphism from blocks (lists under ++) -/
-structure Hom {M} (m : Mon M) (μ : List Cell → M) : Prop where
+structure Hom {M ρ} (m : Mon M) (μ : List ρ → M) : Prop where
   nil : μ [] = m.e
   append : ∀ p q, μ (p ++ q) = m.op (μ p) (μ q)
 
-theorem Hom.flatten {M} {m : Mon M} {μ : List Cell → M} (hμ : Hom m μ) (parts : List (List Cell)) :
+theorem Hom.flatten {M ρ} {m : Mon M} {μ : List ρ → M} (hμ : Hom m μ) (parts : List (List ρ)) :
     m.fold (parts.map μ) = μ parts.flatten := by
   induction parts with
   | nil => simp [Mon.fold, hμ.nil]
